@@ -476,7 +476,7 @@ func runC25(c *core.Ctx) {
 				if len(held) == 0 {
 					continue
 				}
-				cname := callee.Params[0].Name()
+				cname := core.ParamName(callee.Params[0])
 				for _, ca := range acquiresDeep(callee, acquires, 3) {
 					if !strings.HasPrefix(ca.Op.Path, cname+".") {
 						continue
@@ -612,7 +612,7 @@ func heldViaCallers(c *core.Ctx, locks map[*ssa.Function]*core.LockInfo, fn *ssa
 	if pi < 0 {
 		return false
 	}
-	suffix := strings.TrimPrefix(lk, fn.Params[pi].Name())
+	suffix := strings.TrimPrefix(lk, core.ParamName(fn.Params[pi]))
 	n := 0
 	for _, caller := range c.AllFns {
 		if !inScope(caller) {
@@ -754,11 +754,11 @@ func acquiresDeep(fn *ssa.Function, acquires map[*ssa.Function][]core.LockAcq, d
 		if len(callee.Params) == 0 {
 			continue
 		}
-		cn := callee.Params[0].Name()
+		cn := core.ParamName(callee.Params[0])
 		for _, a := range acquiresDeep(callee, acquires, depth-1) {
 			if strings.HasPrefix(a.Op.Path, cn+".") {
 				na := a
-				na.Op.Path = self.Name() + strings.TrimPrefix(a.Op.Path, cn)
+				na.Op.Path = core.ParamName(self) + strings.TrimPrefix(a.Op.Path, cn)
 				out = append(out, na)
 			}
 		}
